@@ -122,14 +122,30 @@ static strs sources_for(int k, const str &pd) {
 // ------------------------------------------------------------------ child-side state
 struct SubCell { int kind; Params p; str src; };
 static int OUTFD = -1;          // pipe to parent
+static bool NOFRAMES = false;
+static void emit_frame(const char *type, const str &key, const str &payload) {
+  if (OUTFD < 0 || NOFRAMES) return;
+  str h = fmt("C %s %s %zu\n", type, hex(key).c_str(), payload.size());
+  str all = h + payload + "\n"; size_t o = 0;
+  while (o < all.size()) { ssize_t w = write(OUTFD, all.data() + o, all.size() - o); if (w <= 0) _exit(99); o += w; }
+}
 static void emit(const str &line) { str l = line + "\n"; size_t o = 0; while (o < l.size()) { ssize_t w = write(OUTFD, l.data() + o, l.size() - o); if (w <= 0) _exit(99); o += w; } }
 
 struct Cache {                  // per-child caches (lost on crash/restart; recomputed on demand)
   std::map<str, str> img;       // kind|params -> image
   std::map<str, std::vector<str>> obs;   // key -> observation vector
   std::map<str, bool> obs_bad;  // key -> fresh observation not obtainable (crash)
+  std::map<str, str> img_tainted;   // kind|params -> ASan signature seen while that image was produced
 };
+// The caches live in the PARENT (one per unit): every sub-cell runs in its own forked child (ASan reports a
+// faulting PC only once per process, so sharing a process between sub-cells would hide repeated memory errors),
+// the child inherits the parent's cache through fork and sends new entries back on the pipe.
 static Cache CA;
+static void emit_frame(const char *type, const str &key, const str &payload);
+static void cache_put_img(const str &key, const str &v) { CA.img[key] = v; emit_frame("img", key, v); }
+static void cache_put_obs(const str &key, const std::vector<str> &v) { CA.obs[key] = v; str b; for (auto &x : v) { b += x; b += '\n'; } emit_frame("obs", key, b); }
+static void cache_put_bad(const str &key) { CA.obs_bad[key] = true; emit_frame("bad", key, ""); }
+static void cache_put_taint(const str &key, const str &sig) { CA.img_tainted[key] = sig; emit_frame("tnt", key, sig); }
 static str CELLINFO;
 static int STDERR_MEMFD = -1;
 
@@ -139,17 +155,23 @@ static StringDictionary *x_build(Ctx &c, int k, const Params &p, const strs &S) 
   GUARD(d = build_kind(k, p, S), { c.fail("build", "exception", "constructor threw"); return 0; });
   return d;
 }
+static str IMAGE_TAINT;    // set when the image needed by this sub-cell came from a build/save with a memory error
 static bool get_image(Ctx &c, int k, const Params &p, const strs &S, str &img) {
   str key = fmt("%d|", k) + p.s();
   auto it = CA.img.find(key);
   if (it != CA.img.end()) { img = it->second; return true; }
+  auto tt = CA.img_tainted.find(key);
+  if (tt != CA.img_tainted.end() && c.prop != "C07") { IMAGE_TAINT = tt->second; return false; }
   str keep = c.src; c.src = "fresh"; pg_src("fresh");
+  size_t before = ASAN_REPORTS.size();
   StringDictionary *d = x_build(c, k, p, S);
   if (!d) { c.src = keep; return false; }
   bool ok = x_save(c, d, img);
   x_delete(c, d);
   c.src = keep; pg_src(keep.c_str());
-  if (ok) CA.img[key] = img;
+  str taint; for (size_t i = before; i < ASAN_REPORTS.size(); i++) if (ASAN_REPORTS[i].second == "build" || ASAN_REPORTS[i].second == "save") { taint = ASAN_REPORTS[i].first; break; }
+  if (!taint.empty()) { cache_put_taint(key, taint); if (c.prop != "C07") { IMAGE_TAINT = taint; return false; } return ok; }
+  if (ok) cache_put_img(key, img);
   return ok;
 }
 // materialise the object for a source; returns 0 if not obtainable (failure recorded where the property owns it)
@@ -198,8 +220,8 @@ static bool safe_obs(int k, const Params &p, const Cell &cell, const str &src, b
 static bool ref_obs(const str &key, int k, const Params &p, const Cell &cell, const str &src, bool idfree, std::vector<str> &out) {
   if (CA.obs.count(key)) { out = CA.obs[key]; return true; }
   if (CA.obs_bad.count(key)) return false;
-  if (safe_obs(k, p, cell, src, idfree, out)) { CA.obs[key] = out; return true; }
-  CA.obs_bad[key] = true; return false;
+  if (safe_obs(k, p, cell, src, idfree, out)) { cache_put_obs(key, out); return true; }
+  cache_put_bad(key); return false;
 }
 static str first_diff(const std::vector<str> &a, const std::vector<str> &b) {
   size_t n = std::min(a.size(), b.size());
@@ -291,7 +313,7 @@ static void run_subcell(Ctx &c, const Cell &cell, const SubCell &sc) {
     StringDictionary *d = get_object(c, k, p, cell.S, sc.src);
     if (!d) {
       // not obtainable: generic loader returning NULL etc. is C06's business; count as blocked here
-      emit("K " + str(PG->op));
+      if (IMAGE_TAINT.empty()) emit("K " + str(PG->op));
       return;
     }
     c.objects++;
@@ -315,7 +337,7 @@ static void run_subcell(Ctx &c, const Cell &cell, const SubCell &sc) {
       return;
     }
     if (sc.src == "concat") {  // self-delimitation: images follow one another in one stream
-      str img; if (!get_image(c, k, p, cell.S, img)) { emit("K build"); return; }
+      str img; if (!get_image(c, k, p, cell.S, img)) { if (IMAGE_TAINT.empty()) emit("K build"); return; }
       c.src = "concat"; pg_src("concat");
       for (int k2 = 0; k2 < NKINDS; k2++) {
         Params p2 = default_params(k2); str img2;
@@ -328,7 +350,7 @@ static void run_subcell(Ctx &c, const Cell &cell, const SubCell &sc) {
             size_t off = 0; while (off < im.size()) { ssize_t w = write(fd[1], im.data() + off, im.size() - off); if (w <= 0) break; off += w; } _exit(0); }
           close(fd[1]); str blob; char buf[65536]; ssize_t r; while ((r = read(fd[0], buf, sizeof buf)) > 0) blob.append(buf, r); close(fd[0]);
           int st = 0; waitpid(pid, &st, 0);
-          CA.img[key2] = (WIFEXITED(st) && WEXITSTATUS(st) == 0) ? blob : str();
+          cache_put_img(key2, (WIFEXITED(st) && WEXITSTATUS(st) == 0) ? blob : str());
         }
         img2 = CA.img[key2];
         if (img2.empty()) continue;
@@ -364,6 +386,7 @@ static void run_subcell(Ctx &c, const Cell &cell, const SubCell &sc) {
     str img;
     StringDictionary *d = get_object(c, k, p, cell.S, sc.src, &img);
     if (!d) {
+      if (!IMAGE_TAINT.empty()) return;
       if (str(PG->op) == "build" || (str(PG->op) == "save" && false)) { emit("K build"); return; }
       c.fail(PG->op, "load_returned_null", "loader returned NULL for a valid image (src " + sc.src + ")");
       return;
@@ -390,7 +413,7 @@ static void run_subcell(Ctx &c, const Cell &cell, const SubCell &sc) {
     str src = sc.src;
     if (k_bucketed(k) && p.a < 2) ftruncate(STDERR_MEMFD, 0), lseek(STDERR_MEMFD, 0, SEEK_SET);
     StringDictionary *d = get_object(c, k, p, cell.S, src);
-    if (!d) { emit("K " + str(PG->op)); return; }
+    if (!d) { if (IMAGE_TAINT.empty()) emit("K " + str(PG->op)); return; }
     c.objects++;
     if (k_bucketed(k) && p.a < 2 && src == "fresh") {
       char buf[512]; ssize_t r = pread(STDERR_MEMFD, buf, sizeof buf - 1, 0); if (r < 0) r = 0; buf[r] = 0;
@@ -399,7 +422,7 @@ static void run_subcell(Ctx &c, const Cell &cell, const SubCell &sc) {
     std::vector<str> got; observe(c, d, M, cell, idfree, got);
     x_delete(c, d);
     std::vector<str> ref; str key = fmt("%d|", k) + p0.s() + "|" + src + (idfree ? "|idfree" : "");
-    if (p.s() == p0.s()) { CA.obs[key] = got; }
+    if (p.s() == p0.s()) { cache_put_obs(key, got); }
     else if (ref_obs(key, k, p0, cell, src, idfree, ref)) {
       // an FM-index built without BWT sampling documents that it has no substring search: compare the rest
       auto nosub = [](const std::vector<str> &v) { std::vector<str> o; for (auto &x : v) { str t = obs_tag(x); if (t != "LS" && t != "ES") o.push_back(x); } return o; };
@@ -426,7 +449,7 @@ static void run_subcell(Ctx &c, const Cell &cell, const SubCell &sc) {
     str ref;
     { str key = fmt("blk1|") + p1.s(); auto it = CA.img.find(key);
       if (it != CA.img.end()) ref = it->second;
-      else { StringDictionary *d1 = x_build(c, k, p1, cell.S); if (!d1) return; bool ok = x_save(c, d1, ref); x_delete(c, d1); if (!ok) return; CA.img[key] = ref; } }
+      else { StringDictionary *d1 = x_build(c, k, p1, cell.S); if (!d1) return; bool ok = x_save(c, d1, ref); x_delete(c, d1); if (!ok) return; cache_put_img(key, ref); } }
     StringDictionary *d = x_build(c, k, p, cell.S); if (!d) return;
     c.objects++;
     StringDictionaryHASHRPDACBlocks *b = (StringDictionaryHASHRPDACBlocks *)d;
@@ -475,7 +498,7 @@ static void run_subcell(Ctx &c, const Cell &cell, const SubCell &sc) {
     // loaded object: save(load(img)) == img, or at least loads equivalently; repeated saves identical; answers unchanged
     str img;
     StringDictionary *d = get_object(c, k, p, cell.S, sc.src, &img);
-    if (!d) { emit("K " + str(PG->op)); return; }
+    if (!d) { if (IMAGE_TAINT.empty()) emit("K " + str(PG->op)); return; }
     c.objects++;
     std::vector<str> before, after;
     observe(c, d, M, cell, false, before);
@@ -502,7 +525,7 @@ static void run_subcell(Ctx &c, const Cell &cell, const SubCell &sc) {
     for (int pass = 0; pass < 2; pass++) {
       g_fill = pass ? 0x5A : 0xA5;
       StringDictionary *d = get_object(c, k, p, cell.S, sc.src);
-      if (!d) { g_fill = 0xA5; if (pass == 0) emit("K " + str(PG->op)); CA.img.clear(); continue; }
+      if (!d) { g_fill = 0xA5; if (pass == 0 && IMAGE_TAINT.empty()) emit("K " + str(PG->op)); CA.img.clear(); continue; }
       c.objects++;
       std::vector<str> &o = pass ? obsB : obsA;
       observe(c, d, M, cell, false, o);
@@ -553,7 +576,7 @@ static Cell make_cell(const Scope &sc, const strs &U, const Unit &u) {
   return cell;
 }
 
-static int ISOLATE = 0;     // >0: at most this many sub-cells per child (ASan reports each PC once per process)
+static int ISOLATE = 1;     // >0: at most this many sub-cells per child (ASan reports each PC once per process)
 static void child_main(const str &prop, const Cell &cell, const std::vector<SubCell> &subs, int start, int fd) {
   OUTFD = fd;
   int dn = open("/dev/null", O_WRONLY); dup2(dn, 1);
@@ -565,12 +588,14 @@ static void child_main(const str &prop, const Cell &cell, const std::vector<SubC
     emit(fmt("B %d", i));
     Ctx c; c.prop = prop; c.cellinfo = CELLINFO;
     if (prop == "C14") c.want_pattern_check = true;
+    IMAGE_TAINT.clear();
     run_subcell(c, cell, subs[i]);
     // An ASan report while the object was being built / saved / loaded means its later behaviour is undefined
     // (and typically depends on heap layout): for every property but C07 the sub-cell is *blocked* by that
     // memory-safety violation (reported by C07), never counted as held, and its fallout is not attributed here.
     str taint;
     if (prop != "C07") for (auto &r : ASAN_REPORTS) if (r.second == "build" || r.second == "save" || r.second == "load_generic" || r.second == "load_own") { taint = r.first; break; }
+    if (taint.empty() && !IMAGE_TAINT.empty()) taint = IMAGE_TAINT;
     if (!taint.empty()) { c.fails.clear(); emit("K tainted_by_memory_error_in_build_or_load:" + taint); }
     for (auto &f : c.fails) emit("F " + failure_json(f));
     for (auto &r : ASAN_REPORTS) emit("A " + r.first + "\t" + r.second);
@@ -613,6 +638,7 @@ static void add_failure(Totals &T, const Failure &f) {
 
 static void run_unit(const str &prop, const Scope &sc, const Cell &cell, Totals &T, double per_sub_timeout) {
   std::vector<SubCell> subs = subcells_for(prop, sc, cell);
+  CA = Cache();
   CELLINFO = fmt("pal=%s,stretch=%d,sigma=%d,L=%d,nf=%d", PALETTES[cell.pal].name, cell.stretch, cell.sigma, cell.L, sc.nf);
   int start = 0;
   T.units++;
@@ -624,6 +650,7 @@ static void run_unit(const str &prop, const Scope &sc, const Cell &cell, Totals 
     if (pid == 0) { close(fd[0]); child_main(prop, cell, subs, start, fd[1]); }
     close(fd[1]);
     str buf; bool done = false; int cur = start; bool timed_out = false;
+    bool frame_pending = false; str frame_type, frame_key; size_t frame_need = 0;
     double last = now_s();
     std::vector<Failure> pend; std::vector<std::pair<str, str>> pend_asan;
     while (true) {
@@ -634,9 +661,25 @@ static void run_unit(const str &prop, const Scope &sc, const Cell &cell, Totals 
         if (r <= 0) break;
         buf.append(tmp, r); last = now_s();
         size_t nl;
-        while ((nl = buf.find('\n')) != str::npos) {
+        while (true) {
+          if (frame_pending) {
+            if (buf.size() < frame_need + 1) break;
+            str payload = buf.substr(0, frame_need); buf.erase(0, frame_need + 1);
+            if (frame_type == "img") CA.img[frame_key] = payload;
+            else if (frame_type == "obs") { std::vector<str> v = split(payload, '\n'); if (!v.empty() && v.back().empty()) v.pop_back(); CA.obs[frame_key] = v; }
+            else if (frame_type == "bad") CA.obs_bad[frame_key] = true;
+            else if (frame_type == "tnt") CA.img_tainted[frame_key] = payload;
+            frame_pending = false;
+            continue;
+          }
+          if ((nl = buf.find('\n')) == str::npos) break;
           str line = buf.substr(0, nl); buf.erase(0, nl + 1);
           if (line.empty()) continue;
+          if (line[0] == 'C' && line.size() > 2 && line[1] == ' ') {
+            auto parts = split(line, ' ');
+            if (parts.size() >= 4) { frame_type = parts[1]; frame_key = unhex(parts[2]); frame_need = (size_t)atol(parts[3].c_str()); frame_pending = true; }
+            continue;
+          }
           char t = line[0]; str rest = line.size() > 2 ? line.substr(2) : "";
           if (t == 'B') { cur = atoi(rest.c_str()); }
           else if (t == 'F') {
@@ -717,6 +760,7 @@ int main(int argc, char **argv) {
   bool complete = true;
   long units_total = 0;
   if (one) {
+    NOFRAMES = true;
     // replay of a single sub-cell: same code path, explicit cell
     Cell cell; cell.sigma = one_sigma; cell.L = one_L; cell.stretch = one_stretch; cell.pal = one_pal;
     for (auto &h : split(one_strings, ',')) if (!h.empty()) cell.S.push_back(unhex(h));
